@@ -118,6 +118,10 @@ def run(chk):
         ("X_test both leaves", lambda: gp3.condition(y, (jnp.zeros((3, 2)), jnp.zeros(3))), "ValueError"),
         ("X_test structured ok", lambda: gp3.condition(y, (jnp.zeros(3), jnp.zeros((3, 3)))).gp.loc, None),
         ("mean rank", lambda: GaussianProcess(kernels.Matern32(jnp.asarray(1.0)), x, diag=jnp.asarray(0.1), mean=lambda t: jnp.stack([t, t])), "ValueError"),
+        ("mean_value rank (explicit noise model)", lambda: GaussianProcess(kernels.Matern32(jnp.asarray(1.0)), x, noise=noise.Diagonal(0.1 * jnp.ones(4)),
+                                                                            mean_value=jnp.zeros((4, 1))), "ValueError"),
+        ("condition with a column-vector y (explicit noise model)", lambda: gp.condition(jnp.zeros((4, 1)), noise=noise.Diagonal(0.1 * jnp.ones(4))), "ValueError"),
+        ("mean_value ok", lambda: GaussianProcess(kernels.Matern32(jnp.asarray(1.0)), x, noise=noise.Diagonal(0.1 * jnp.ones(4)), mean_value=jnp.zeros(4)).loc, None),
         ("noise diagonal rank 0", lambda: noise.Diagonal(jnp.asarray(0.1)), "ValueError"),
         ("noise diagonal rank 2", lambda: noise.Diagonal(jnp.zeros((2, 2))), "ValueError"),
         ("non-scalar constant", lambda: (kernels.Matern32(jnp.asarray(1.0)) + jnp.ones(3))(x, x), "ValueError"),
@@ -149,7 +153,7 @@ def run(chk):
     chk.cov["distinct_nontrivial"] = len(distinct)
     chk.cov["rule"] = (f"every vector of length <= {maxlen} built from 0..n-1 with one adjacent inversion at each position (also a 1e-9 inversion), "
                        "descending, sorted, sorted with ties, all equal, plus random small-integer vectors; each eager, under jit and with assume_sorted; "
-                       "vmap with one unsorted row; structured (time,label) coordinates; 28-row table of the other documented errors (incl. partial leaf mismatches of a structured X_test); "
+                       "vmap with one unsorted row; structured (time,label) coordinates; 31-row table of the other documented errors (incl. partial leaf mismatches of a structured X_test); "
                        "distinct = different coordinate vectors")
     chk.cov["input_histogram"] = hist
     chk.cov["samples"] = [expect[3][0], expect[-1][0]]
